@@ -506,28 +506,30 @@ pub fn dispatch(op: &str, a: &[Arg]) -> Option<String> {
                 Err(e) => format!("[Err {}]", err_obs(&e)),
             }
         }
-        // compress m lvlflag lvlabs x<content>: the codec libraries called directly with the crate's parameters
+        // compress m lvlflag lvlabs x<chunk> [x<chunk>...]: the codec libraries called directly with the crate's parameters,
+        // fed one write_all per chunk exactly as ZipWriter::write_all feeds them (the output of a streaming encoder
+        // may depend on where its input was split)
         "compress" => {
             use std::io::Write;
             let lvl: i32 = match a[1].n() {
                 1 => a[2].n() as i32,
                 _ => -(a[2].n() as i32),
             };
-            let c = a[3].b();
+            let chunks: Vec<&[u8]> = a[3..].iter().map(|x| x.b()).collect();
             match a[0].n() {
                 8 => {
                     let mut e = flate2::write::DeflateEncoder::new(Vec::new(), flate2::Compression::new(lvl as u32));
-                    e.write_all(c).unwrap();
+                    for c in &chunks { e.write_all(c).unwrap(); }
                     ob(&e.finish().unwrap())
                 }
                 12 => {
                     let mut e = bzip2::write::BzEncoder::new(Vec::new(), bzip2::Compression::new(lvl as u32));
-                    e.write_all(c).unwrap();
+                    for c in &chunks { e.write_all(c).unwrap(); }
                     ob(&e.finish().unwrap())
                 }
                 93 => {
                     let mut e = zstd::stream::write::Encoder::new(Vec::new(), lvl).unwrap();
-                    e.write_all(c).unwrap();
+                    for c in &chunks { e.write_all(c).unwrap(); }
                     ob(&e.finish().unwrap())
                 }
                 _ => "BADMETHOD".to_string(),
